@@ -43,3 +43,45 @@ pub fn nav(args: &[String]) {
     println!(" next_all:   {:?}", n.next_all().map(|x| (x.range().start, x.range().end, x.kind().to_string())).collect::<Vec<_>>());
   }
 }
+
+/// `vh navtime <lang> <file>` — debugging aid: time of prev()/prev_all()/next_all() per node
+pub fn navtime(args: &[String]) {
+  let lang: SupportLang = args[0].parse().expect("lang");
+  let src = std::fs::read_to_string(&args[1]).expect("file");
+  let sg = lang.ast_grep(&src);
+  let nodes: Vec<_> = crate::corpus::all_nodes(sg.root());
+  println!("{} nodes", nodes.len());
+  for n in nodes.iter() {
+    let t = std::time::Instant::now();
+    let c = n.prev_all().take(100000).count();
+    if c >= 100000 {
+      println!("prev_all of {}..{} {} id={} does not end", n.range().start, n.range().end, n.kind(), n.node_id());
+      continue;
+    }
+    let d = t.elapsed();
+    if d.as_millis() > 50 {
+      println!("prev_all of {}..{} {} ({} siblings) took {:?}; depth {}", n.range().start, n.range().end, n.kind(), c, d, n.ancestors().count());
+    }
+    {
+      let mut k = 0usize;
+      let mut c = n.prev();
+      let mut seen = vec![n.node_id()];
+      while let Some(x) = c {
+        k += 1;
+        if seen.contains(&x.node_id()) || k > 5000 {
+          println!("iterated prev() from {}..{} {} id={} CYCLES: reaches {}..{} {} id={} again after {k} steps", n.range().start, n.range().end, n.kind(), n.node_id(), x.range().start, x.range().end, x.kind(), x.node_id());
+          break;
+        }
+        seen.push(x.node_id());
+        c = x.prev();
+      }
+    }
+    let t = std::time::Instant::now();
+    let _ = n.prev();
+    let d = t.elapsed();
+    if d.as_millis() > 50 {
+      println!("prev of {}..{} {} took {:?}", n.range().start, n.range().end, n.kind(), d);
+      break;
+    }
+  }
+}
